@@ -285,6 +285,8 @@ def random_field(ctx, tmp):
     dtype = gen.pick(rng, ["float", "float", "complex", "int"])
     arr = _values(rng, (*nlist, nvdim), dtype)
     labels = ig.rand_labels(rng, nvdim)
+    if nvdim == 1 and rng.random() < 0.3:  # a one-component field may carry a label too
+        labels = [gen.pick(rng, ["s", "rho", "m_s", "T1"])]
     unit = gen.pick(rng, ig.UNITS)
     valid = gen.rand_valid(rng, nlist)
     f = df.Field(mesh, nvdim=nvdim, value=arr, vdims=labels, unit=unit, valid=valid.copy(),
